@@ -123,8 +123,8 @@ func OpsFor(in Info, reduced bool) []int {
 			if s.V != 0 || s.E == 1 {
 				continue
 			}
-			if s.L == 4 != EquivocationProfile && s.L != 0 {
-				continue // C14 explores the equivocating leader instead of the re-proposing one
+			if EquivocationProfile && s.L != 0 && s.L != 4 {
+				continue // C14 only needs the equivocating leader (it produces real double-sign evidence)
 			}
 			pq := [3]int{s.P, s.Q1, s.Q2}
 			switch pq {
